@@ -10,6 +10,7 @@
      repair_fscomp_exact   repair over the decompressor returns Ok, the SAME output archive
                            and unfinished list as over a cursor on b: exactly the files and
                            content bytes present in b (`recovered bl (len b)`). *)
+From MLA Require Import Limit.
 From MLA Require Import Base Stream Blocks Writer Repair RepairSpec RepairPure
   RepairProofs2 RepairProofs5 RepairProofs6 EncAuthFs ComposeRdOnly RepairMask
   CompFailSafe CompFailSafeProofs CompFailSafeStep CompFailSafeSticky FsCompStream.
@@ -24,6 +25,7 @@ Proof.
 Qed.
 
 Section FsCompRefines.
+  Context {LIM : Limit}.
   Variables BLOCK FSBUF : N.
   Hypothesis HFSBUF : 0 < FSBUF.
   Hypothesis HBLOCK32 : BLOCK < 2 ^ 32.
@@ -156,15 +158,20 @@ Section FsCompRefines.
   Theorem repair_fscomp_exact bl trailer i0 fuel :
     wf_blocks FNMAX H bl -> In BEnd bl \/ trailer = [] -> prefix fsc_out (body bl ++ trailer) ->
     Rin i0 0 -> (N.to_nat (len fsc_out) < fuel)%nat ->
+    (* finalize did not fail with SerializationError (footer within the bincode limit) *)
+    repair FsC fuel (FReady i0) w_init <> Err EDeser ->
     exists status out obl,
       repair FsC fuel (FReady i0) w_init
         = Ok (status, unfinished_of (recovered bl (len fsc_out)), out) /\
       good_output out obl /\ Forall2 same (recovered bl (len fsc_out)) (files_of obl).
   Proof.
-    intros Hwf Htr Hp HR Hf.
+    intros Hwf Htr Hp HR Hf Hser.
+    assert (HserM : repair (Mask FsC) fuel (Some (FReady i0)) w_init <> Err EDeser).
+    { intros E. apply Hser.
+      exact (repair_mask_ser FsC FNMAX CACHE T_START T_CONTENT T_EOA T_EOF H fuel (FReady i0) w_init E). }
     destruct (repair_exact_rd FNMAX CACHE HFN HCACHE T_START T_CONTENT T_EOA T_EOF Htags H H_len
                 (Mask FsC) fsc_out JM fscomp_mask_refines bl trailer Hwf Htr Hp (Some (FReady i0))
-                (JM_start i0 HR) fuel Hf) as (out & obl & Hr & Hg & Hs).
+                (JM_start i0 HR) fuel Hf HserM) as (out & obl & Hr & Hg & Hs).
     destruct (repair_mask FsC FNMAX CACHE T_START T_CONTENT T_EOA T_EOF H fuel (FReady i0) w_init _ _ _ Hr)
       as (status & Hr').
     exists status, out, obl. auto.
